@@ -4,6 +4,13 @@
 (* and the tool's commands, for exhaustive checking (invariants = Layer P  *)
 (* evaluated on Layer M) and for exporting behaviours that the harness     *)
 (* replays against the real code.                                          *)
+(*                                                                         *)
+(* A command is two steps: the command itself, which leaves its operation, *)
+(* observation and pre-state in `last` (an "observation state", on which   *)
+(* the invariants are evaluated), and Ack, which clears `last`.            *)
+(* Observation states have Ack as their only successor, so they cost one   *)
+(* invariant evaluation per distinct (pre-state, operation) and nothing    *)
+(* else.                                                                   *)
 (***************************************************************************)
 EXTENDS MhlHistory, Json
 
@@ -12,6 +19,7 @@ CONSTANTS
   DirPaths,     \* paths that may be directories
   InitDisk,     \* initial disk function
   Contents,     \* content ids a file may take
+  Mutable,      \* paths the environment may alter / delete / create / rename
   CmdRoots,     \* roots commands may be started at
   FmtChoices,   \* set of format sets usable with -h
   PatChoices,   \* set of pattern sequences usable with -i
@@ -24,19 +32,19 @@ CONSTANTS
 VARIABLES disk, hist, sealed, last, behav
 vars == <<disk, hist, sealed, last, behav>>
 
-NoOp == [op |-> "none"]
-NoOb == [exit |-> 0, internal |-> FALSE, missing |-> {}, mismatch |-> {}, new |-> {}, eff |-> <<>>]
+NoOp   == [op |-> "none"]
+NoOb   == [exit |-> 0, internal |-> FALSE, missing |-> {}, mismatch |-> {}, new |-> {}, eff |-> <<>>]
+NoLast == [op |-> NoOp, ob |-> NoOb, pre |-> <<>>, sealed |-> <<>>, ign |-> {}]
 
 Init ==
   /\ disk = InitDisk
   /\ hist = [h \in CmdRoots |-> <<>>]
   /\ sealed = <<>>
-  /\ last = [op |-> NoOp, ob |-> NoOb, pre |-> [h \in CmdRoots |-> <<>>], ign |-> {}]
+  /\ last = NoLast
   /\ behav = <<>>
 
 Log(o) == behav' = Append(behav, o)
 TotalGens == LET RECURSIVE S(_) S(Q) == IF Q = {} THEN 0 ELSE LET h == CHOOSE x \in Q : TRUE IN Len(hist[h]) + S(Q \ {h}) IN S(CmdRoots)
-Quiet == last' = [op |-> NoOp, ob |-> NoOb, pre |-> hist, ign |-> {}]
 
 (***************************************************************************)
 (* Environment                                                             *)
@@ -46,94 +54,97 @@ Put(p, v) == [q \in DOMAIN disk \cup {p} |-> IF q = p THEN v ELSE disk[q]]
 Drop(p)   == [q \in DOMAIN disk \ {p} |-> disk[q]]
 
 EnvAlter(f, c) ==           \* also "add": the file may be absent
-  /\ "alter" \in Ops /\ f \in FilePaths /\ ParentExists(f)
+  /\ "alter" \in Ops /\ f \in FilePaths \cap Mutable /\ ParentExists(f)
   /\ (f \in DOMAIN disk => disk[f] # c /\ disk[f] # "DIR")
+  /\ ("distinct" \in Ops => \A q \in DOMAIN disk : disk[q] # c)   \* scopes with pairwise distinct contents
   /\ disk' = Put(f, c)
   /\ Log([op |-> "alter", p |-> f, c |-> c])
-  /\ Quiet /\ UNCHANGED <<hist, sealed>>
+  /\ UNCHANGED <<hist, sealed, last>>
 EnvDelete(p) ==             \* a file, or an empty directory that is not a history root
-  /\ "delete" \in Ops /\ p \in DOMAIN disk
+  /\ "delete" \in Ops /\ p \in DOMAIN disk \cap Mutable
   /\ disk[p] = "DIR" => (~\E q \in DOMAIN disk : Below(p, q)) /\ (p \in DOMAIN hist => hist[p] = <<>>)
   /\ disk' = Drop(p)
   /\ Log([op |-> "delete", p |-> p])
-  /\ Quiet /\ UNCHANGED <<hist, sealed>>
+  /\ UNCHANGED <<hist, sealed, last>>
 EnvMkdir(d) ==
-  /\ "mkdir" \in Ops /\ d \in DirPaths /\ d \notin DOMAIN disk /\ ParentExists(d)
+  /\ "mkdir" \in Ops /\ d \in DirPaths \cap Mutable /\ d \notin DOMAIN disk /\ ParentExists(d)
   /\ disk' = Put(d, "DIR")
   /\ Log([op |-> "mkdir", p |-> d])
-  /\ Quiet /\ UNCHANGED <<hist, sealed>>
+  /\ UNCHANGED <<hist, sealed, last>>
 EnvRename(f, g) ==
-  /\ "rename" \in Ops /\ f \in DOMAIN disk /\ disk[f] # "DIR"
+  /\ "rename" \in Ops /\ f \in DOMAIN disk \cap Mutable /\ disk[f] # "DIR"
   /\ g \in FilePaths /\ g \notin DOMAIN disk /\ ParentExists(g)
   /\ disk' = [q \in (DOMAIN disk \ {f}) \cup {g} |-> IF q = g THEN disk[f] ELSE disk[q]]
   /\ Log([op |-> "rename", p |-> f, q |-> g])
-  /\ Quiet /\ UNCHANGED <<hist, sealed>>
+  /\ UNCHANGED <<hist, sealed, last>>
 
 (***************************************************************************)
 (* Commands.  The observation of a command is what Layer M predicts.       *)
 (***************************************************************************)
 StripSnap(g) == IF KeepSnap THEN g ELSE [g EXCEPT !.snap = <<>>]
 IgnSet(R, eff) == {p \in DOMAIN disk : Below(R, p) /\ Ign(R, p, eff)}
-
 Commit(r) == [h \in DOMAIN hist |-> IF h \in DOMAIN r.gens THEN Append(hist[h], StripSnap(r.gens[h])) ELSE hist[h]]
+Observe(o, ob, ign) == last' = [op |-> o, ob |-> ob, pre |-> hist, sealed |-> sealed, ign |-> ign]
 
 Create(R, F, nodh, dr, P) ==
   /\ "create" \in Ops /\ IsDir(disk, R)
   /\ (nodh => "nodh" \in Ops) /\ (dr => "dr" \in Ops)
-  /\ LET r == CreateResult(hist, disk, R, F, nodh, dr, P)
+  /\ LET r == TLCEval(CreateResult(hist, disk, R, F, nodh, dr, P))
          o == [op |-> "create", R |-> R, F |-> F, n |-> nodh, dr |-> dr, P |-> P]
      IN /\ hist' = IF r.abort THEN hist ELSE Commit(r)
-        /\ sealed' = IF r.exit = 0 THEN [x \in DOMAIN sealed \cup {R} |-> IF x = R THEN disk ELSE sealed[x]] ELSE sealed
-        /\ last' = [op |-> o, pre |-> hist, ign |-> IgnSet(R, r.eff),
-                    ob |-> [exit |-> r.exit, internal |-> r.abort, missing |-> r.missing,
-                            mismatch |-> r.mismatch, new |-> {}, eff |-> r.eff]]
+        /\ sealed' = SealedNext(sealed, disk, IF r.abort THEN {} ELSE DOMAIN r.gens, o, r.exit)
+        /\ Observe(o, [exit |-> r.exit, internal |-> r.abort, missing |-> r.missing,
+                       mismatch |-> r.mismatch, new |-> {}, eff |-> r.eff], IgnSet(R, r.eff))
         /\ Log(o)
   /\ UNCHANGED disk
 
 CreateSF(R, F, S) ==
   /\ "createsf" \in Ops /\ IsDir(disk, R) /\ S # {}
   /\ \A s \in S : s \in DOMAIN disk /\ Below(R, s)
-  /\ LET r == CreateSFResult(hist, disk, R, F, S)
+  /\ LET r == TLCEval(CreateSFResult(hist, disk, R, F, S))
          o == [op |-> "createsf", R |-> R, F |-> F, S |-> S]
      IN /\ hist' = IF r.abort THEN hist ELSE Commit(r)
-        /\ last' = [op |-> o, pre |-> hist, ign |-> {},
-                    ob |-> [exit |-> r.exit, internal |-> r.abort, missing |-> {},
-                            mismatch |-> r.mismatch, new |-> {}, eff |-> r.eff]]
+        /\ sealed' = SealedNext(sealed, disk, IF r.abort THEN {} ELSE DOMAIN r.gens, o, r.exit)
+        /\ Observe(o, [exit |-> r.exit, internal |-> r.abort, missing |-> {},
+                       mismatch |-> r.mismatch, new |-> {}, eff |-> r.eff], {})
         /\ Log(o)
-  /\ UNCHANGED <<disk, sealed>>
+  /\ UNCHANGED disk
 
 ReadOnly(o, r, eff) ==
-  /\ last' = [op |-> o, pre |-> hist, ign |-> IgnSet(o.R, eff),
-              ob |-> [exit |-> r.exit, internal |-> FALSE, missing |-> r.missing,
-                      mismatch |-> r.mismatch, new |-> r.new, eff |-> eff]]
+  /\ Observe(o, [exit |-> r.exit, internal |-> FALSE, missing |-> r.missing,
+                 mismatch |-> r.mismatch, new |-> r.new, eff |-> eff], IgnSet(o.R, eff))
   /\ Log(o)
   /\ UNCHANGED <<disk, hist, sealed>>
 
 Verify(R, P) ==
   /\ "verify" \in Ops /\ IsDir(disk, R)
-  /\ ReadOnly([op |-> "verify", R |-> R, P |-> P], VerifyResult(hist, disk, R, P, NoPath), EffPats(hist, R, P))
+  /\ ReadOnly([op |-> "verify", R |-> R, P |-> P], TLCEval(VerifyResult(hist, disk, R, P, NoPath)), EffPats(hist, R, P))
 Diff(R, P) ==
   /\ "diff" \in Ops /\ IsDir(disk, R)
-  /\ ReadOnly([op |-> "diff", R |-> R, P |-> P], DiffResult(hist, disk, R, P), EffPats(hist, R, P))
+  /\ ReadOnly([op |-> "diff", R |-> R, P |-> P], TLCEval(DiffResult(hist, disk, R, P)), EffPats(hist, R, P))
 VerifySF(R, s) ==
   /\ "verifysf" \in Ops /\ IsDir(disk, R) /\ s \in FilePaths /\ Below(R, s)
-  /\ ReadOnly([op |-> "verifysf", R |-> R, S |-> s], VerifyResult(hist, disk, R, <<>>, s), EffPats(hist, R, <<>>))
+  /\ ReadOnly([op |-> "verifysf", R |-> R, S |-> s], TLCEval(VerifyResult(hist, disk, R, <<>>, s)), EffPats(hist, R, <<>>))
 VerifyDH(R) ==
   /\ "verifydh" \in Ops /\ IsDir(disk, R) /\ Len(hist[R]) > 0
-  /\ LET r == VerifyDHResult(hist, disk, R, <<>>)
+  /\ LET r == TLCEval(VerifyDHResult(hist, disk, R, <<>>))
      IN ReadOnly([op |-> "verifydh", R |-> R], [exit |-> r.exit, missing |-> {}, mismatch |-> r.baddirs, new |-> {}],
                  EffPats(hist, R, <<>>))
 
+Ack == last.op.op # "none" /\ last' = NoLast /\ UNCHANGED <<disk, hist, sealed, behav>>
+
 Next ==
-  \/ \E f \in FilePaths, c \in Contents : EnvAlter(f, c)
-  \/ \E p \in FilePaths \cup DirPaths : EnvDelete(p)
-  \/ \E d \in DirPaths : EnvMkdir(d)
-  \/ \E f, g \in FilePaths : EnvRename(f, g)
-  \/ \E R \in CmdRoots, F \in FmtChoices, P \in PatChoices, nodh, dr \in BOOLEAN : Create(R, F, nodh, dr, P)
-  \/ \E R \in CmdRoots, F \in FmtChoices, S \in SFChoices : CreateSF(R, F, S)
-  \/ \E R \in CmdRoots, P \in PatChoices : Verify(R, P) \/ Diff(R, P)
-  \/ \E R \in CmdRoots, s \in FilePaths : VerifySF(R, s)
-  \/ \E R \in CmdRoots : VerifyDH(R)
+  \/ Ack
+  \/ /\ last.op.op = "none"
+     /\ \/ \E f \in FilePaths, c \in Contents : EnvAlter(f, c)
+        \/ \E p \in FilePaths \cup DirPaths : EnvDelete(p)
+        \/ \E d \in DirPaths : EnvMkdir(d)
+        \/ \E f, g \in FilePaths : EnvRename(f, g)
+        \/ \E R \in CmdRoots, F \in FmtChoices, P \in PatChoices, nodh, dr \in BOOLEAN : Create(R, F, nodh, dr, P)
+        \/ \E R \in CmdRoots, F \in FmtChoices, S \in SFChoices : CreateSF(R, F, S)
+        \/ \E R \in CmdRoots, P \in PatChoices : Verify(R, P) \/ Diff(R, P)
+        \/ \E R \in CmdRoots, s \in FilePaths : VerifySF(R, s)
+        \/ \E R \in CmdRoots : VerifyDH(R)
 
 Spec == Init /\ [][Next]_vars
 
@@ -144,38 +155,39 @@ GenBound == TotalGens <= MaxGens
 OpBound  == Len(behav) <= MaxOps
 CheckView == <<disk, hist, sealed, last>>
 
-\* export: print every behaviour of maximal length, and every behaviour that ends in a command
+\* export: print every behaviour that ends in a command (the harness keeps the maximal ones)
 Export ==
   /\ OpBound
   /\ (last.op.op # "none") => PrintT(<<"BEH", ToJson(behav)>>)
 
 (***************************************************************************)
-(* Invariants: Layer P on Layer M                                          *)
+(* Invariants: Layer P on Layer M (evaluated on observation states)        *)
 (***************************************************************************)
 pre == last.pre
-Inv_C02_RecordSet   == P_C02_RecordSet(pre, hist, disk, last.op, last.ob, last.ign)
-Inv_C02_Digests     == P_C02_Digests(pre, hist, disk, last.op, last.ob)
-Inv_C02_SingleFiles == P_C02_SingleFiles(pre, hist, disk, last.op, last.ob)
-Inv_C03_NoFalseAlarm == P_C03_NoFalseAlarm(pre, disk, sealed, last.op, last.ob, last.ign)
-Inv_C03_Altered     == P_C03_Altered(pre, disk, last.op, last.ob, last.ign)
-Inv_C03_Removed     == P_C03_Removed(pre, disk, last.op, last.ob, last.ign)
-Inv_C03_Added       == P_C03_Added(pre, disk, last.op, last.ob, last.ign)
-Inv_C03_Quiet       == P_C03_Quiet(pre, disk, last.op, last.ob, last.ign)
-Inv_C04_Judged      == P_C04_Judged(pre, hist, disk, last.op, last.ob)
-Inv_C04_UnalteredOk == P_C04_UnalteredOk(pre, disk, last.op, last.ob)
-Inv_C06_AppendOnly  == P_C06_AppendOnly(pre, hist)
-Inv_C06_Numbered    == P_C06_Numbered(pre, hist)
-Inv_C08_Partition   == P_C08_Partition(pre, hist, disk, last.op, last.ob)
-Inv_C08_ChildRoot   == P_C08_ChildRoot(pre, hist, disk, last.op, last.ob)
-Inv_C08_Refs        == P_C08_Refs(pre, hist, disk, last.op, last.ob)
-Inv_C08_WhoWrites   == P_C08_WhoWrites(pre, hist, disk, last.op, last.ob, last.ign)
-Inv_C12_Excluded    == P_C12_Excluded(pre, hist, last.op, last.ob, last.ign)
-Inv_C12_Accumulate  == P_C12_Accumulate(pre, hist, last.op, last.ob)
+Obs == last.op.op # "none"
+Inv_C02_RecordSet   == Obs => P_C02_RecordSet(pre, hist, disk, last.op, last.ob, last.ign)
+Inv_C02_Digests     == Obs => P_C02_Digests(pre, hist, disk, last.op, last.ob)
+Inv_C02_SingleFiles == Obs => P_C02_SingleFiles(pre, hist, disk, last.op, last.ob)
+Inv_C03_NoFalseAlarm == Obs => P_C03_NoFalseAlarm(pre, disk, last.sealed, last.op, last.ob, last.ign)
+Inv_C03_Altered     == Obs => P_C03_Altered(pre, disk, last.op, last.ob, last.ign)
+Inv_C03_Removed     == Obs => P_C03_Removed(pre, disk, last.op, last.ob, last.ign)
+Inv_C03_Added       == Obs => P_C03_Added(pre, disk, last.op, last.ob, last.ign)
+Inv_C03_Quiet       == Obs => P_C03_Quiet(pre, disk, last.op, last.ob, last.ign)
+Inv_C04_Judged      == Obs => P_C04_Judged(pre, hist, disk, last.op, last.ob)
+Inv_C04_UnalteredOk == Obs => P_C04_UnalteredOk(pre, disk, last.op, last.ob)
+Inv_C06_AppendOnly  == Obs => P_C06_AppendOnly(pre, hist)
+Inv_C06_Numbered    == Obs => P_C06_Numbered(pre, hist)
+Inv_C08_Partition   == Obs => P_C08_Partition(pre, hist, disk, last.op, last.ob)
+Inv_C08_ChildRoot   == Obs => P_C08_ChildRoot(pre, hist, disk, last.op, last.ob)
+Inv_C08_Refs        == Obs => P_C08_Refs(pre, hist, disk, last.op, last.ob)
+Inv_C08_WhoWrites   == Obs => P_C08_WhoWrites(pre, hist, disk, last.op, last.ob, last.ign)
+Inv_C12_Excluded    == Obs => P_C12_Excluded(pre, hist, last.op, last.ob, last.ign)
+Inv_C12_Accumulate  == Obs => P_C12_Accumulate(pre, hist, last.op, last.ob)
 Inv_NoInternal      == ~last.ob.internal
 \* C04 as an action property: the first recorded digest of a path and format never changes
-FirstRefStable ==
+Act_C04_FirstRefStable ==
   [][\A h \in DOMAIN hist : \A i \in DOMAIN hist[h] : \A rp \in DOMAIN hist[h][i].files :
        \A f \in DOMAIN hist[h][i].files[rp].ents :
           FirstDig(hist'[h], rp, f) = FirstDig(hist[h], rp, f)]_vars
-AppendOnlyAct == [][P_C06_AppendOnly(hist, hist')]_vars
+Act_C06_AppendOnly == [][P_C06_AppendOnly(hist, hist')]_vars
 =============================================================================
